@@ -16,7 +16,7 @@ import warnings
 from vf import REPO_DIR, cimgen
 from vf import listenerkit as lk
 from vf.reach import Reach
-from vf.runner import h64, short, exc_key as _runner_exc_key, repo_frame
+from vf.runner import h64, short
 
 import pywbem
 from pywbem import WBEMListener, CIMProperty
@@ -84,16 +84,7 @@ REACH = ['pywbem._listener:ListenerRequestHandler.do_POST',
          'pywbem._listener:WBEMListener._handle_indication']
 
 
-def exc_key(exc):
-    """Mechanism key of an exception that escaped a request handler: type +
-    innermost repository frame + text of the raising line.  For pywbem's own
-    error classes the runner's key would embed the message (with request
-    text in it); use type + raising function instead."""
-    if type(exc).__module__.startswith('pywbem'):
-        fr = repo_frame(exc)
-        return 'exc=%s@%s' % (type(exc).__name__,
-                              '%s.%s' % (fr[2][:-3], fr[0]) if fr else '?')
-    return _runner_exc_key(exc)
+exc_key = lk.exc_key
 
 
 def plan(tier):
